@@ -1,6 +1,8 @@
 """C11 — ambiguous specifications are rejected, unambiguous ones accepted.
 Theorems: coq/Props/Properties_C11.v.  Model: coq/Fix/Tags.v (libasn1fix's
-decision), spec: coq/Fix/Distinct.v (X.680 distinctness, from the property text).
+decision) behind coq/Fix/ComponentsOf.v (COMPONENTS OF / extensible ENUMERATED:
+xcheck = check after asn1c's expansion), spec: coq/Fix/Distinct.v (X.680
+distinctness, from the property text) after the X.680 expansion of ComponentsOf.v.
 Tie: modules generated from the type algebra (valid ones and single-fault
 injections at every position/pair) are printed as ASN.1, compiled one by one
 with the asn1c built from the repository working tree (`asn1c -S <skeletons>
@@ -15,8 +17,10 @@ from vlib import *
 # ---------------------------------------------------------------- AST helpers
 # module = (tagging 'E'|'I'|'A', [def]);  def = (name, tag, ty)
 # tag = None | (cls 'u'|'a'|'c'|'p', num, mode 'd'|'i'|'e')
-# ty = ('B',)|('I',)|('N',)|('O',)|('E', [(name, val|None)])|(k 'S'|'T'|'C', r1, ext None|[comp], r2)|('Q', ty)|('R', name)
-# comp = (name, tag, flag 'm'|'o'|'d', ty)
+# ty = ('B',)|('I',)|('N',)|('O',)|('E', [(name, val|None)])|('X', [root items], [additional items])
+#      |(k 'S'|'T'|'C', r1, ext None|[comp], r2)|('Q', ty)|('R', name)
+#      'X' = ENUMERATED { root, ..., additions }
+# comp = (name, tag, flag 'm'|'o'|'d', ty) | ('K', name)       'K' = COMPONENTS OF T<name>
 B, I, N, O = ('B',), ('I',), ('N',), ('O',)
 
 
@@ -32,6 +36,12 @@ def ty_toks(t, out):
         out += ["E", str(len(t[1]))]
         for n, v in t[1]:
             out += [str(n), "-" if v is None else str(v)]
+    elif k == 'X':
+        out.append("X")
+        for its in (t[1], t[2]):
+            out.append(str(len(its)))
+            for n, v in its:
+                out += [str(n), "-" if v is None else str(v)]
     elif k in "STC":
         out += [k, str(len(t[1]))]
         for c in t[1]:
@@ -54,7 +64,14 @@ def ty_toks(t, out):
         raise ValueError(t)
 
 
+def is_k(c):
+    return c[0] == 'K'
+
+
 def comp_toks(c, out):
+    if is_k(c):
+        out += ["K", str(c[1])]
+        return
     out += [str(c[0]), tag_tok(c[1]), c[2]]
     ty_toks(c[3], out)
 
@@ -87,6 +104,9 @@ def ty_txt(t):
         return "OCTET STRING"
     if k == 'E':
         return "ENUMERATED { " + ", ".join("e%d" % n + ("" if v is None else "(%d)" % v) for n, v in t[1]) + " }"
+    if k == 'X':
+        it = lambda its: ["e%d" % n + ("" if v is None else "(%d)" % v) for n, v in its]
+        return "ENUMERATED { " + ", ".join(it(t[1]) + ["..."] + it(t[2])) + " }"
     if k in "STC":
         parts = [comp_txt(c) for c in t[1]]
         if t[2] is not None:
@@ -108,6 +128,8 @@ def default_txt(t):
 
 
 def comp_txt(c):
+    if is_k(c):
+        return "COMPONENTS OF T%d" % c[1]
     s = "c%d %s%s" % (c[0], tag_txt(c[1]), ty_txt(c[3]))
     if c[2] == 'o':
         s += " OPTIONAL"
@@ -146,7 +168,8 @@ def cons_sites(m):
         if t[0] in "STC":
             out.append((di, tuple(p)))
             for i, c in enumerate(all_comps(t)):
-                walk(c[3], di, p + [i])
+                if not is_k(c):
+                    walk(c[3], di, p + [i])
         elif t[0] == 'Q':
             walk(t[1], di, p + ['q'])
     for di, d in enumerate(m[1]):
@@ -162,7 +185,8 @@ def enum_sites(m):
             out.append((di, tuple(p)))
         elif t[0] in "STC":
             for i, c in enumerate(all_comps(t)):
-                walk(c[3], di, p + [i])
+                if not is_k(c):
+                    walk(c[3], di, p + [i])
         elif t[0] == 'Q':
             walk(t[1], di, p + ['q'])
     for di, d in enumerate(m[1]):
@@ -211,14 +235,37 @@ def aux_defs():
             (AUX + 5, None, ('R', AUX + 3))]                                           # T905 ::= T903
 
 
-def gen_ty(rng, depth, names, defnames):
+# the parser's limits for a number (asn1c_integer_t is __int128 in this build:
+# libasn1parser/asn1p_integer.c:strtoaint_lim; one more digit is "too large for this compiler")
+INT_MAX = 2**127 - 1
+INT_MIN = -2**127
+BIGVALS = [2**31 - 1, 2**31, 2**31 + 1, -2**31, -2**31 - 1, 2**32 - 1, 2**32, 2**32 + 1, -2**32, -2**32 - 1,
+           3000000000, 2**63 - 1, 2**63, -2**63, -2**63 - 1, 2**64 - 1, 2**64, 2**64 + 5, -2**64,
+           10**27, 2**127 - 1, -2**127, -2**127 + 1, 0, 1, -1, 5]
+
+
+def gen_ty(rng, depth, names, defnames, cof=None):
     """a random type; small tag space so that collisions do occur by chance"""
     r = rng.below(100)
     if r < 40 or depth <= 0:
         return rng.choice([B, I, N, O, I, B])
     if r < 50:
         n = rng.range(1, 4)
-        style = rng.below(10)
+        style = rng.below(12)
+        if style >= 10:
+            # values outside 32/64 bits, possibly congruent modulo 2^31/2^32/2^64; sometimes extensible
+            vals = [rng.choice(BIGVALS) for _ in range(n)]
+            if rng.chance(1, 2):
+                vals = [vals[0]] + [rng.choice([vals[0] + d for d in (2**31, 2**32, -2**32, 2**64, 0)] + BIGVALS) for _ in range(n - 1)]
+            vals = [v if INT_MIN <= v <= INT_MAX else 7 for v in vals]
+            items = [(k + 1, v) for k, v in enumerate(vals)]
+            if rng.chance(1, 2) and n >= 2:
+                cut = rng.range(1, n - 1)
+                adds = items[cut:]
+                if rng.chance(3, 4):
+                    adds = [(nm, v) for (nm, _), v in zip(adds, sorted(v for _, v in adds))]
+                return ('X', items[:cut], adds)
+            return ('E', items)
         items = []
         for k in range(n):
             v = None if style < 4 else (rng.range(-1, 6) if style < 9 or rng.chance(1, 2) else None)
@@ -228,11 +275,11 @@ def gen_ty(rng, depth, names, defnames):
         return ('R', rng.choice(defnames))
     if r < 66:
         return ('Q', gen_ty(rng, depth - 1, names, defnames))
-    return gen_cons(rng, depth - 1, defnames)
+    return gen_cons(rng, depth - 1, defnames, cof=cof)
 
 
-def gen_comp(rng, idx, kind, depth, defnames, tagstyle):
-    t = gen_ty(rng, depth, None, defnames)
+def gen_comp(rng, idx, kind, depth, defnames, tagstyle, cof=None):
+    t = gen_ty(rng, depth, None, defnames, cof)
     tg = None
     if tagstyle == 'all' or (tagstyle == 'some' and rng.chance(1, 2)):
         tg = (rng.choice("cccap"), rng.choice([idx, idx, idx, rng.range(0, 3)]), rng.choice("ddie"))
@@ -243,21 +290,26 @@ def gen_comp(rng, idx, kind, depth, defnames, tagstyle):
     return (name, tg, fl, t)
 
 
-def gen_cons(rng, depth, defnames, kind=None):
+def gen_cons(rng, depth, defnames, kind=None, cof=None):
+    """cof: {'S': [names], 'T': [names]} of earlier definitions COMPONENTS OF may refer to"""
     kind = kind or rng.choice("STC")
     n1 = rng.range(1, 4)
     tagstyle = rng.choice(['none', 'none', 'some', 'all'])
     idx = 0
     r1 = []
     for _ in range(n1):
-        r1.append(gen_comp(rng, idx, kind, depth, defnames, tagstyle)); idx += 1
+        r1.append(gen_comp(rng, idx, kind, depth, defnames, tagstyle, cof)); idx += 1
     ext, r2 = None, []
     if rng.chance(1, 3):
         ext = []
         for _ in range(rng.below(3)):
-            ext.append(gen_comp(rng, idx, kind, depth, defnames, tagstyle)); idx += 1
+            ext.append(gen_comp(rng, idx, kind, depth, defnames, tagstyle, cof)); idx += 1
         for _ in range(rng.below(2)):
-            r2.append(gen_comp(rng, idx, kind, depth, defnames, tagstyle)); idx += 1
+            r2.append(gen_comp(rng, idx, kind, depth, defnames, tagstyle, cof)); idx += 1
+    if cof and cof.get(kind) and rng.chance(1, 3):
+        for _ in range(1 if rng.chance(4, 5) else 2):
+            part = rng.choice([r1, r1, r2 if ext is not None else r1, ext if ext is not None else r1])
+            part.insert(rng.below(len(part) + 1), ('K', rng.choice(cof[kind])))
     return (kind, r1, ext, r2)
 
 
@@ -265,6 +317,7 @@ def gen_module(rng):
     tagging = rng.choice("EIA")
     defs = []
     names = []
+    cof = {'S': [], 'T': []}
     n = rng.range(2, 5)
     for k in range(n):
         name = k + 1
@@ -273,8 +326,13 @@ def gen_module(rng):
             t = rng.choice([B, I, N, O])
         elif r < 3 and names:
             t = ('R', rng.choice(names))
+            for kk in "ST":          # an alias of a SEQUENCE/SET can be referred to as well
+                if t[1] in cof[kk]:
+                    cof[kk].append(name)
         else:
-            t = gen_cons(rng, 2, names + [name] if rng.chance(1, 6) else names)
+            t = gen_cons(rng, 2, names + [name] if rng.chance(1, 6) else names, cof={kk: list(v) for kk, v in cof.items()})
+            if t[0] in "ST":
+                cof[t[0]].append(name)
         tg = None
         if rng.chance(1, 6):
             tg = (rng.choice("ca"), rng.range(0, 3), rng.choice("ddie"))
@@ -332,10 +390,10 @@ def inject_collision(m, site, i, j, kind, variant):
         if t[0] == 'S' and variant.startswith("run"):
             for k in range(i, j):
                 c = cs[k]
-                if c[2] == 'm':
+                if not is_k(c) and c[2] == 'm':
                     cs[k] = (c[0], c[1], 'd' if (c[3][0] in "I" and (k % 2)) else 'o', c[3])
         if variant.endswith("manual"):
-            others = [k for k in range(len(cs)) if k not in (i, j)]
+            others = [k for k in range(len(cs)) if k not in (i, j) and not is_k(cs[k])]
             if others:
                 k = others[0]
                 c = cs[k]
@@ -350,6 +408,150 @@ def inject_collision(m, site, i, j, kind, variant):
     else:
         m2 = (variant[-1], m2[1])
     return add_defs(m2, aux_defs())
+
+
+# ---------------------------------------------------------------- COMPONENTS OF
+COFB = {'S': 910, 'T': 920}   # names of the auxiliary SEQUENCE (91x) and SET (92x) types
+
+
+def cof_aux(kind):
+    """definitions COMPONENTS OF refers to; they are put in FRONT of the module
+    (only earlier definitions are in the modelled fragment)"""
+    b = COFB[kind]
+    chx = ('C', [(1, None, 'm', I)], [], [])
+    return [(b + 1, None, (kind, [(61, ('c', 5, 'd'), 'm', I), (62, ('c', 6, 'd'), 'o', B)], None, [])),      # manual tags
+            (b + 2, None, (kind, [(63, None, 'o', I), (64, None, 'm', B)], None, [])),                         # no tags
+            (b + 3, None, (kind, [(65, None, 'm', N)], [(66, None, 'm', I)], [(67, None, 'm', O)])),           # { c65, ..., c66, ..., c67 }
+            (b + 4, None, ('R', b + 1)),                                                                       # alias
+            (b + 5, ('a', 3, 'd'), (kind, [(68, None, 'o', chx),                                               # nested extensible types
+                                           (69, None, 'm', ('S', [(1, None, 'm', N)], [(2, None, 'm', N)], []))], None, [])),
+            (b + 6, None, (kind, [(70, None, 'm', N), ('K', b + 1)], None, []))]                               # COMPONENTS OF inside
+
+
+def put_in(t, part, idx, comps):
+    """insert components into r1 (part 1), the additions (2) or r2 (3) of a constructed type"""
+    parts = [None, list(t[1]), None if t[2] is None else list(t[2]), list(t[3])]
+    parts[part][idx:idx] = comps
+    return (t[0], parts[1], parts[2], parts[3])
+
+
+def untag_comps(t):
+    f = lambda l: [c if is_k(c) else (c[0], None, c[2], c[3]) for c in l]
+    return (t[0], f(t[1]), None if t[2] is None else f(t[2]), f(t[3]))
+
+
+def cof_variants(t):
+    """(label, ...) for one SEQUENCE/SET site"""
+    out = []
+    n1 = len(t[1])
+    for pos in range(n1 + 1):
+        for ref in (1, 2, 3, 4, 5, 6):
+            for tg in "EIA":
+                out.append(("plain-%d-%s" % (ref, tg), pos, ref, tg))
+        for tg in "EIA":
+            out.append(("dupident-" + tg, pos, 1, tg))
+            out.append(("dupident2-" + tg, pos, 6, tg))
+            out.append(("tagclash-" + tg, pos, 1, tg))
+            out.append(("tagclash-alias-" + tg, pos, 4, tg))
+            out.append(("tagclash-chain-" + tg, pos, 6, tg))
+            out.append(("tagdistinct-" + tg, pos, 1, tg))
+            out.append(("univclash-" + tg, pos, 2, tg))
+            out.append(("autotagged-" + tg, pos, 1, tg))
+            out.append(("autotagged-chain-" + tg, pos, 6, tg))
+            out.append(("twice-" + tg, pos, 2, tg))
+            out.append(("extnotcopied-" + tg, pos, 3, tg))
+            out.append(("extnotcopied-id-" + tg, pos, 3, tg))
+            out.append(("nestedext-" + tg, pos, 5, tg))
+            if t[2] is not None:
+                out.append(("inadds-" + tg, pos, 1, tg))
+                out.append(("inadds-untagged-" + tg, pos, 2, tg))
+    return out
+
+
+def inject_cof(m, site, variant):
+    label, pos, ref, tg = variant
+    what = label.rsplit("-", 1)[0]
+    t0 = get_at(m, site)
+    kind = t0[0]
+    K = ('K', COFB[kind] + ref)
+    opt = 'o'
+
+    def f(t):
+        if what.startswith("plain"):
+            return put_in(t, 1, pos, [K])
+        if what in ("dupident", "dupident2"):
+            # a local component takes the identifier of an inherited one
+            return put_in(t, 1, pos, [(61, None, 'm', O), K] if pos % 2 else [K, (61, None, 'm', O)])
+        if what.startswith("tagclash"):
+            # c61 arrives with [5]; a local OPTIONAL component just before it carries [5] as well
+            return put_in(t, 1, pos, [(71, ('c', 5, 'd'), opt, B), K])
+        if what == "tagdistinct":
+            return put_in(t, 1, pos, [(71, ('c', 4, 'd'), opt, B), K])
+        if what == "univclash":
+            # inherited c63 INTEGER OPTIONAL, c64 BOOLEAN; local untagged INTEGER OPTIONAL before them
+            return put_in(t, 1, pos, [(71, None, opt, I), K])
+        if what.startswith("autotagged"):
+            # nothing written in this type is tagged: automatic tagging applies (when the module has
+            # it) although the inherited components are tagged; c71/c72 rely on it
+            return put_in(untag_comps(t), 1, pos, [(71, None, opt, I), K, (72, None, opt, I), (73, None, 'm', I)])
+        if what == "twice":
+            return put_in(t, 1, pos, [K, (71, None, 'm', N), K])
+        if what == "extnotcopied":
+            # T913's addition c66 INTEGER is not inherited: c71 INTEGER OPTIONAL is followed by c65 NULL
+            return put_in(t, 1, pos, [(71, None, opt, I), K])
+        if what == "extnotcopied-id":
+            return put_in(t, 1, pos, [(66, None, 'm', ('Q', B)), K])
+        if what == "nestedext":
+            # a local extensible CHOICE (OPTIONAL), then the inherited c68 CHOICE { c1 INTEGER, ... } OPTIONAL
+            return put_in(t, 1, pos, [(71, None, opt, ('C', [(1, None, 'm', B)], [], [])), K])
+        if what.startswith("inadds"):
+            return put_in(t, 2, min(pos, len(t[2])), [K])
+        raise ValueError(label)
+    m2 = rewrite(m, site, f)
+    return (tg, cof_aux(kind) + list(m2[1]))
+
+
+BIG_ENUMS = None
+
+
+def big_enum_cases():
+    """(label, type) — enumerations with values around the 32/64-bit boundaries:
+    valid ones (distinct values, among them pairs congruent modulo 2^31, 2^32, 2^64)
+    and ones that repeat a large value, in the root and after the marker"""
+    out = []
+    P31, P32, P63, P64 = 2**31, 2**32, 2**63, 2**64
+    sets = {"b31": [P31 - 1, P31, P31 + 1], "n31": [-P31 - 1, -P31, -P31 + 1], "b32": [P32 - 1, P32, P32 + 1],
+            "n32": [-P32 - 1, -P32, -P32 + 1], "b63": [P63 - 1, P63, P63 + 1], "n63": [-P63 - 1, -P63, -P63 + 1],
+            "b64": [P64 - 1, P64, P64 + 1], "lim": [INT_MIN, -1, INT_MAX],
+            "mod32": [0, P32, 2 * P32], "mod32b": [-1, P32 - 1, 5], "mod32c": [3, P32 + 3, -P32 + 3],
+            "mod31": [1, P31 + 1, -P31 + 1], "mod64": [7, P64 + 7, -P64 + 7], "mod32d": [3000000000, 3000000000 - P32, 1],
+            "mix": [1, 3000000000, 4294967296]}
+    for nm in sorted(sets):
+        vs = sets[nm]
+        items = [(k + 1, v) for k, v in enumerate(vs)]
+        out.append(("valid:root:" + nm, ('E', items)))
+        out.append(("valid:root-rev:" + nm, ('E', [(k + 1, v) for k, v in enumerate(reversed(vs))])))
+        sv = sorted(vs)
+        if sv[1] >= 0:
+            out.append(("valid:ext:" + nm, ('X', [(1, sv[0])], [(2, sv[1]), (3, sv[2])])))
+        if sv[2] >= 0:
+            out.append(("valid:ext1:" + nm, ('X', [(1, sv[0]), (2, sv[1])], [(3, sv[2])])))
+        if sv[0] < 0:
+            out.append(("negadd:" + nm, ('X', [(1, sv[2])], [(2, sv[0])])))       # first addition negative
+        if max(vs) < INT_MAX:
+            out.append(("valid:unvalued:" + nm, ('E', [(1, vs[0]), (2, vs[1]), (3, None), (4, vs[2])] if vs[2] != max(vs[:2]) + 1 else [(1, vs[0]), (2, None)])))
+        for i in range(3):
+            for j in range(i + 1, 3):
+                d = list(vs)
+                d[j] = d[i]
+                out.append(("dup:root:%s" % nm, ('E', [(k + 1, v) for k, v in enumerate(d)])))
+                out.append(("dup:root+other:%s" % nm, ('E', [(9, 4)] + [(k + 1, v) for k, v in enumerate(d)])))
+                if j == 2:
+                    rest = [v for k, v in enumerate(d) if k != 2]
+                    out.append(("dup:root-vs-ext:%s" % nm, ('X', [(k + 1, v) for k, v in enumerate(rest)], [(3, d[2])])))
+                if i >= 1:
+                    out.append(("dup:ext-vs-ext:%s" % nm, ('X', [(1, d[0])], [(2, d[1]), (3, d[2])])))
+    return out
 
 
 def fixed_corpus():
@@ -398,13 +600,58 @@ def fixed_corpus():
     C.append(("q-undef", ('E', [(1, None, ('S', [(1, None, 'm', ('R', 9))], None, []))])))
     C.append(("q-undef-seqof", ('E', [(1, None, ('Q', ('R', 9)))])))
     C.append(("q-recursive-seq", ('E', [(1, None, ('S', [(1, None, 'o', ('R', 1))], None, []))])))
+    # COMPONENTS OF
+    hdr = lambda k: (1, None, (k, [(1, ('c', 5, 'd'), 'm', I), (2, ('c', 6, 'd'), 'm', B)], None, []))
+    body = lambda k: (2, None, (k, [(3, None, 'o', I), ('K', 1), (4, None, 'o', I), (5, None, 'm', I)], None, []))
+    for k in "ST":
+        for tg in "AEI":
+            # AUTOMATIC: T2 is tagged [0]..[4] although c1, c2 arrive tagged (X.680 25.3 NOTE); otherwise c4/c5 clash
+            C.append(("c-inherited-tags-%s-%s" % (k, tg), (tg, [hdr(k), body(k)])))
+        C.append(("c-auto-local-tag-" + k, ('A', [hdr(k), (2, None, (k, [(3, ('c', 0, 'd'), 'o', I), ('K', 1), (4, None, 'o', I), (5, None, 'm', I)], None, []))])))
+        C.append(("c-auto-set-app-" + k, ('A', [(1, None, (k, [(1, ('a', 1, 'd'), 'm', I)], None, [])), (2, None, (k, [(2, None, 'm', B), ('K', 1), (3, None, 'm', B)], None, []))])))
+        C.append(("c-dupident-" + k, ('E', [hdr(k), (2, None, (k, [(1, None, 'm', N), ('K', 1)], None, []))])))
+        C.append(("c-twice-" + k, ('E', [hdr(k), (2, None, (k, [('K', 1), (3, None, 'm', N), ('K', 1)], None, []))])))
+        C.append(("c-only-" + k, ('I', [hdr(k), (2, None, (k, [('K', 1)], None, []))])))
+        C.append(("c-inherited-tag-clash-" + k, ('I', [hdr(k), (2, None, (k, [(3, ('c', 5, 'd'), 'o', B), ('K', 1)], None, []))])))
+        C.append(("c-28.4-written-" + k, ('A', [hdr(k), (2, None, (k, [(3, None, 'm', N), ('K', 1)], [(4, ('c', 9, 'd'), 'm', I)], []))])))
+        C.append(("c-in-additions-" + k, ('A', [hdr(k), (2, None, (k, [(3, None, 'm', N)], [('K', 1)], [(4, None, 'm', N)]))])))
+        C.append(("c-ext-not-copied-" + k, ('E', [(1, None, (k, [(1, None, 'm', N)], [(2, None, 'm', I)], [(3, None, 'm', O)])),
+                                                  (2, None, (k, [(2, None, 'o', I), ('K', 1)], None, []))])))
+        C.append(("c-nested-ext-" + k, ('E', [(1, None, (k, [(1, None, 'o', ('C', [(1, None, 'm', I)], [], []))], None, [])),
+                                              (2, None, (k, [('K', 1), (2, None, 'm', ('C', [(1, None, 'm', B)], [], []))], None, []))])))
+        C.append(("c-alias-chain-" + k, ('E', [hdr(k), (3, None, ('R', 1)), (4, ('c', 1, 'd'), ('R', 3)), (2, None, (k, [(3, None, 'm', N), ('K', 4)], None, []))])))
+        C.append(("c-nested-cof-" + k, ('A', [hdr(k), (2, None, (k, [(3, None, 'm', N), ('K', 1)], None, [])), (3, None, (k, [('K', 2), (4, None, 'm', N)], None, []))])))
+        # U's manual tag survives two hops although T2 (in between) is tagged automatically
+        C.append(("c-nested-cof-tags-" + k, ('A', [(1, None, (k, [(1, ('c', 5, 'd'), 'm', I)], None, [])),
+                                                   (2, None, (k, [(2, None, 'm', N), ('K', 1)], None, [])),
+                                                   (3, None, (k, [(3, ('c', 5, 'd'), 'o', B), ('K', 2)], None, [])),
+                                                   (4, None, (k, [(3, ('c', 5, 'd'), 'o', B), ('K', 1), ('K', 2)], None, []))])))
+        # a type with a repeated inherited identifier, cloned as the TYPE of an inherited component: reported there
+        C.append(("c-dupident-recloned-" + k, ('E', [hdr(k), (2, None, (k, [(7, None, 'm', (k, [(1, None, 'm', N), ('K', 1)], None, []))], None, [])),
+                                                     (3, None, (k, [(8, None, 'm', O), ('K', 2)], None, []))])))
+        C.append(("c-inline-" + k, ('A', [hdr(k), (2, None, ('S', [(1, None, 'm', (k, [(3, None, 'o', I), ('K', 1), (4, None, 'm', I)], None, []))], None, []))])))
+        # outside the modelled fragment (the model answers OUTSIDE): dangling reference, wrong kind
+        C.append(("c-dangling-" + k, ('E', [hdr(k), (2, None, (k, [(3, None, 'o', I), ('K', 9), (4, None, 'm', I)], None, []))])))
+        C.append(("c-wrongkind-" + k, ('E', [hdr("T" if k == "S" else "S"), (2, None, (k, [(3, None, 'o', I), ('K', 1), (4, None, 'm', I)], None, []))])))
+        C.append(("c-wrongkind-single-" + k, ('E', [(1, None, I), (2, None, (k, [('K', 1)], None, []))])))
+    # enumeration values outside 32 bits
+    C.append(("e-big-dup", ('E', [(1, None, ('E', [(1, 1), (2, 3000000000), (3, 3000000000)]))])))
+    C.append(("e-big-dup-ext", ('E', [(1, None, ('X', [(1, 1), (2, 3000000000)], [(3, 3000000000)]))])))
+    C.append(("e-mod32-distinct", ('E', [(1, None, ('E', [(1, 0), (2, 4294967296)]))])))
+    C.append(("e-neg-mod32-distinct", ('E', [(1, None, ('E', [(1, -1), (2, 4294967295)]))])))
+    C.append(("e-limits", ('E', [(1, None, ('E', [(1, INT_MIN), (2, INT_MAX), (3, 2**63 - 1), (4, -2**63)]))])))
+    C.append(("e-limits-dup", ('E', [(1, None, ('E', [(1, INT_MAX), (2, INT_MIN), (3, INT_MAX)]))])))
+    C.append(("e-big-unvalued", ('E', [(1, None, ('E', [(1, 2**32 - 1), (2, None), (3, 2**32)]))])))
+    C.append(("e-ext-first-negative", ('E', [(1, None, ('X', [(1, 5)], [(2, -3)]))])))
+    C.append(("e-ext-order", ('E', [(1, None, ('X', [(1, 5)], [(2, 2**32), (3, 2**31)]))])))
+    C.append(("e-ext-empty", ('E', [(1, None, ('X', [(1, 5), (2, 2**64)], []))])))
     return C
 
 
 def generate(rng, tier, model):
     """returns list of (label, module)"""
     nbase = 8 if tier == "quick" else 40
-    budget = 1000 if tier == "quick" else 8000
+    budget = 1500 if tier == "quick" else 10000
     cases = list(fixed_corpus())
     # random modules; the spec-valid ones become bases for the injections
     cands = [gen_module(rng) for _ in range(nbase * 8)]
@@ -431,9 +678,14 @@ def generate(rng, tier, model):
     for bi, m in enumerate(bases):
         for site in cons_sites(m):
             t = get_at(m, site)
-            n = len(all_comps(t))
-            for i in range(n):
-                for j in range(i + 1, n):
+            idx = [k for k, c in enumerate(all_comps(t)) if not is_k(c)]     # COMPONENTS OF is not a place to plant a type at
+            if t[0] in "ST":
+                for v in cof_variants(t):
+                    inj.append(("cof:%s:%s" % (t[0], v[0]), (m, site, v)))
+            for i in idx:
+                for j in idx:
+                    if j <= i:
+                        continue
                     for kind in kinds:
                         variants = ["plain-E", "plain-I", "auto", "manual"]
                         if t[0] == 'S':
@@ -441,7 +693,7 @@ def generate(rng, tier, model):
                         for v in variants:
                             inj.append(("coll:%s:%s:%s" % (t[0], kind[0], v), (m, site, i, j, kind, v)))
                     inj.append(("dupident:" + t[0], (m, site, i, j)))
-            for i in range(n):
+            for i in idx:
                 inj.append(("dangling:comp", (m, site, i)))
         for site in enum_sites(m):
             n = len(get_at(m, site)[1])
@@ -465,11 +717,15 @@ def generate(rng, tier, model):
                         inj.append(("dupenumval:" + style, (m2, site, i, j)))
         inj.append(("dangling:alias", (m,)))
         inj.append(("dangling:seqof", (m,)))
+        # enumerations with values around the 32/64-bit boundaries, top-level and nested
+        for lab, et in big_enum_cases():
+            inj.append(("enumbig:" + lab, (m, et, rng.below(3))))
     inj = rng.shuffle(inj)
     # keep the catalogue balanced: a share of the budget per fault family,
     # round-robin over the labels inside a family
     room = max(0, budget - len(cases))
-    share = {"coll": 0.62, "dupident": 0.12, "dangling": 0.08, "dupenumname": 0.07, "dupenumval": 0.08, "enum-valid": 0.03}
+    share = {"coll": 0.42, "cof": 0.22, "dupident": 0.08, "dangling": 0.05, "dupenumname": 0.04, "dupenumval": 0.05, "enum-valid": 0.02,
+             "enumbig": 0.12}
     picked = []
     for fam in sorted(share):
         by = {}
@@ -493,6 +749,15 @@ def generate(rng, tier, model):
 def realize(lab, a):
     if lab.startswith("coll:"):
         return inject_collision(*a)
+    if lab.startswith("cof:"):
+        return inject_cof(*a)
+    if lab.startswith("enumbig:"):
+        m, et, how = a
+        if how == 0:
+            return add_defs(m, [(907, None, et)])
+        if how == 1:
+            return add_defs(m, [(907, None, ('S', [(1, None, 'm', et), (2, None, 'o', B)], None, []))])
+        return (m[0], [(907, ('c', 2, 'e'), et)] + list(m[1]))
     if lab.startswith("dupident"):
         m, site, i, j = a
 
@@ -542,12 +807,14 @@ def realize(lab, a):
 DIAG = [("clashes with expression", "duptype"), ("ASN.1 expression \"", "duptype"),
         ("Clash detected", "identclash"),
         ("collides with previous values", "enumvalue"),
+        ("is not greater than previous values", "enumorder"),
+        ("must reference a", "compof"),
         ("Unknown type", "undefref"),
         ("must be EXPLICIT", "implicit"),
         ("extensions are tagged", "exttag"),
         ("has the same tag", "tagclash"),
         ("Consider adding AUTOMATIC TAGS", None)]
-MODEL2DIAG = {"duptype": "duptype", "dupident": "identclash", "enumname": "identclash", "enumvalue": "enumvalue",
+MODEL2DIAG = {"enumorder": "enumorder", "duptype": "duptype", "dupident": "identclash", "enumname": "identclash", "enumvalue": "enumvalue",
               "undefref": "undefref", "implicit": "implicit", "exttag": "exttag", "tagclash": "tagclash"}
 SPEC2DIAG = {"tags": "tagclash", "ident": "identclash", "enumname": "identclash", "enumvalue": "enumvalue", "ref": "undefref"}
 
@@ -586,6 +853,50 @@ def run_asn1c(args):
         verdict = "REJECT"
     return {"rc": rc, "verdict": verdict, "classes": sorted(classes), "unknown": unknown, "nfiles": len(files),
             "ndiag": len(diag), "stderr_tail": "\n".join(diag[-6:])[-800:]}
+
+
+def classify(r, f, spec):
+    """asn1c's outcome r against the specification's clauses `spec` ("OK" or comma list) and f["wf"].
+    Returns (None, None) when they agree, else (description, id of the recorded finding or None)."""
+    scls = sorted({SPEC2DIAG[x] for x in spec.split(",")}) if spec != "OK" else []
+    spec_accept = spec == "OK" and f["wf"] == "1"
+    oracle_bad = known = None
+    if r["verdict"] == "CRASH":
+        oracle_bad = "asn1c died (signal %d) instead of exiting with a verdict" % (-r["rc"])
+        if f["cends"] == "0" or f["fix"] == "CRASH":
+            known = "C11-leftrec-crash"
+        elif f["cof"] in ("dangling", "kind") and "compof" in r["classes"]:
+            known = "C11-compof-unresolved-crash"
+    elif spec_accept and r["verdict"] == "REJECT":
+        oracle_bad = "asn1c rejects a module in which none of the listed faults is present"
+        if f["enummixed"] == "1" and r["classes"] == ["enumvalue"]:
+            known = "C11-enum-autonumber"
+        elif f["enumneg"] == "1" and r["classes"] == ["enumorder"]:
+            known = "C11-enum-ext-first-negative"
+    elif not spec_accept and r["verdict"] == "ACCEPT":
+        oracle_bad = "asn1c accepts a module the specification rules out (%s)" % spec
+        if spec == "tags" and f["wf"] == "1" and f["tagref"] == "1" and f["choiceref"] == "1":
+            known = "C11-refmark-missed-clash"
+    elif r["verdict"] == "REJECT" and f["wf"] == "1":
+        # both reject: the classes of fault must agree too
+        a = set(r["classes"])
+        if f["cof"] == "dangling":
+            a.discard("compof")      # accompanies "Unknown type" for the reference after COMPONENTS OF
+        s = set(scls)
+        if a != s:
+            extra, missing = a - s, s - a
+            if missing == {"tagclash"} and not extra and f["tagref"] == "1" and f["choiceref"] == "1":
+                oracle_bad, known = "tag clash not diagnosed (other faults were)", "C11-refmark-missed-clash"
+            elif extra == {"enumvalue"} and not missing and f["enummixed"] == "1":
+                oracle_bad, known = "enumeration value clash diagnosed that the module does not contain", "C11-enum-autonumber"
+            elif extra == {"enumorder"} and not missing and f["enumneg"] == "1":
+                oracle_bad, known = "order of additional enumerations refused although it is X.680's", "C11-enum-ext-first-negative"
+            elif (extra - {"enumvalue"} == set() and missing - {"tagclash"} == set() and f["enummixed"] == "1"
+                  and f["tagref"] == "1" and f["choiceref"] == "1"):
+                oracle_bad, known = "both recorded deviations at once", "C11-refmark-missed-clash"
+            else:
+                oracle_bad = "diagnosed fault classes %s differ from the specification's %s" % (sorted(a), sorted(s))
+    return oracle_bad, known
 
 
 def main(tier):
@@ -634,6 +945,16 @@ def main(tier):
         f = dict(kv.split("=", 1) for kv in o.split())
         run.case(ln)
         fam = lab.split(":")[0] if not lab.startswith("coll:") else "coll:" + lab.split(":")[2]
+        if lab.startswith("cof:"):
+            fam = "cof:" + lab.split(":")[2].rsplit("-", 1)[0]
+        elif lab.startswith("enumbig:"):
+            fam = "enumbig:" + ":".join(lab.split(":")[1:3])
+        elif lab[:2] in ("c-", "e-"):
+            fam = "fixed:" + ("compof" if lab[0] == "c" else "enumbig")
+        if "'K'" in repr(m):
+            run.count("has:components-of")
+        if "'X'" in repr(m):
+            run.count("has:extensible-enum")
         run.count("kind:" + fam)
         run.count("tagging:" + m[0])
         run.count("asn1c:" + r["verdict"])
@@ -647,47 +968,43 @@ def main(tier):
         # ---- faithfulness: model vs asn1c
         mv = f["model"].split(":")[0]
         mcls = sorted({MODEL2DIAG[x] for x in f["model"].split(":")[1].split(",")}) if mv == "REJECT" else []
-        faithful = (mv == r["verdict"]) and (mv != "REJECT" or (mcls == r["classes"] and not r["unknown"]))
-        # ---- oracle: spec vs asn1c
-        scls = sorted({SPEC2DIAG[x] for x in f["spec"].split(",")}) if f["spec"] != "OK" else []
+        if mv == "OUTSIDE":
+            # a COMPONENTS OF whose reference is missing or of the other kind: not modelled (the C keeps the
+            # member and trips over it later); only hand-written cases get here, and only the oracle judges them
+            if f["cof"] not in ("dangling", "kind"):
+                raise RuntimeError("generator produced a module outside the modelled fragment: " + ln)
+            run.count("model:outside-fragment")
+            faithful = True
+            f["spec"] = "ref" if f["cof"] == "dangling" else "OK"
+            f["wf"] = "1" if f["cof"] == "dangling" else "0"
+            f["specc"] = f["spec"]
+            f["cends"] = "1"
+        else:
+            faithful = (mv == r["verdict"]) and (mv != "REJECT" or (mcls == r["classes"] and not r["unknown"]))
+        # ---- oracle: spec (on X.680's expansion) vs asn1c
         spec_accept = f["spec"] == "OK" and f["wf"] == "1"
         run.count("spec:" + ("accept" if spec_accept else ("reject" if f["wf"] == "1" else "reject-outside-catalogue")))
-        oracle_bad = None
-        known = None
-        if r["verdict"] == "CRASH":
-            oracle_bad = "asn1c died (signal %d) instead of exiting with a verdict" % (-r["rc"])
-            if f["cends"] == "0" or f["fix"] == "CRASH":
-                known = "C11-leftrec-crash"
-        elif spec_accept and r["verdict"] == "REJECT":
-            oracle_bad = "asn1c rejects a module in which none of the listed faults is present"
-            if f["enummixed"] == "1" and r["classes"] == ["enumvalue"]:
-                known = "C11-enum-autonumber"
-        elif not spec_accept and r["verdict"] == "ACCEPT":
-            oracle_bad = "asn1c accepts a module the specification rules out (%s)" % f["spec"]
-            if f["spec"] == "tags" and f["wf"] == "1" and f["tagref"] == "1" and f["choiceref"] == "1":
-                known = "C11-refmark-missed-clash"
-        elif r["verdict"] == "REJECT" and f["wf"] == "1":
-            # both reject: the classes of fault must agree too
-            a = set(r["classes"])
-            s = set(scls)
-            if a != s:
-                extra, missing = a - s, s - a
-                if missing == {"tagclash"} and not extra and f["tagref"] == "1" and f["choiceref"] == "1":
-                    oracle_bad, known = "tag clash not diagnosed (other faults were)", "C11-refmark-missed-clash"
-                elif extra == {"enumvalue"} and not missing and f["enummixed"] == "1":
-                    oracle_bad, known = "enumeration value clash diagnosed that the module does not contain", "C11-enum-autonumber"
-                elif (extra - {"enumvalue"} == set() and missing - {"tagclash"} == set() and f["enummixed"] == "1"
-                      and f["tagref"] == "1" and f["choiceref"] == "1"):
-                    oracle_bad, known = "both recorded deviations at once", "C11-refmark-missed-clash"
-                else:
-                    oracle_bad = "diagnosed fault classes %s differ from the specification's %s" % (sorted(a), sorted(s))
+        oracle_bad, known = classify(r, f, f["spec"])
+        if oracle_bad and known is None and f["specc"] != f["spec"]:
+            # asn1c's expansion differs from X.680's on this module (extracted flags cofdup / cofext): the deviation
+            # is the recorded one exactly when the spec evaluated on asn1c's expansion lacks just the clauses
+            # the difference can remove, and asn1c agrees with that (or deviates from it in another recorded way)
+            S = set(f["spec"].split(",")) - {"OK"}
+            Sc = set(f["specc"].split(",")) - {"OK"}
+            may = ({"ident"} if f["cofdup"] == "1" else set()) | ({"tags"} if f["cofext"] == "1" else set())
+            if Sc <= S and (S - Sc) and (S - Sc) <= may:
+                bad2, known2 = classify(r, f, f["specc"])
+                if bad2 is None:
+                    known = "C11-compof-ident-unchecked" if "ident" in (S - Sc) else "C11-compof-nested-ext-dropped"
+                elif known2:
+                    known = known2
         if oracle_bad:
             run.count("oracle_deviation")
             if known and any(fd["id"] == known for fd in run.findings):
                 run.known_finding(known, lab)
                 run.count("known:" + known)
             else:
-                run.violation("oracle:distinct_spec", dict(rep, what=oracle_bad, spec=f["spec"], wf=f["wf"]))
+                run.violation("oracle:distinct_spec", dict(rep, what=oracle_bad, spec=f["spec"], wf=f["wf"], input=text))
         if not faithful:
             run.count("model_vs_code_diff")
             run.violation("correspondence:Fix.Tags.check", dict(rep, what="extracted model and asn1c disagree",
@@ -697,17 +1014,17 @@ def main(tier):
         run.sample({"label": cases[i][0], "asn1": texts[i], "model": mo[i], "asn1c": {k: results[i][k] for k in ("rc", "verdict", "classes", "nfiles")}})
     tb = ["Coq 8.16.1 kernel + vm_compute (refuted witnesses only)",
           "axioms under Print Assumptions: " + (", ".join(sorted(axioms)) or "none (Closed under the global context)"),
-          "extraction: ExtrOcamlBasic only; OCaml 4.13.1; ocaml/drv_c11.ml (token parser for modules)",
+          "extraction: ExtrOcamlBasic only; OCaml 4.13.1; ocaml/drv_c11.ml (token parser for modules; structural comparison of two extracted expansions for the finding flags cofdup/cofext)",
           "checks/c11.py: generator, ASN.1 printer, classification of asn1c diagnostics by message text, finding predicates (extracted from coq/Fix/Distinct.v: has_tagref/has_choiceref/enum_mixed; compile_ends)",
           "the asn1c parser (the printed sublanguage), gcc build of the repository working tree",
           "executable oracle distinct_specb uses reference-chain depth = number of definitions + 1"]
     return run.finish("proof", (nthm, ndis), trusted_base=tb,
                       checker_cmd="make -C /verif all && coqc -Q coq A1 coq/Props/Properties_C11.v",
                       extra_cov={"theorems": names,
-                                 "rule": "fixed witnesses + spec-valid random bases + single-fault injections (collision kinds x every component pair x plain/auto/manual/run variants, duplicate identifier at every pair, duplicate enumeration name/value at every pair, dangling reference at every component/alias/element), round-robin over the catalogue up to the tier's budget; one asn1c process per module",
+                                 "rule": "fixed witnesses + spec-valid random bases (with COMPONENTS OF, large and extensible enumerations) + single-fault injections (collision kinds x every component pair x plain/auto/manual/run variants, duplicate identifier at every pair, duplicate enumeration name/value at every pair, dangling reference at every component/alias/element; COMPONENTS OF of six auxiliary earlier types x every SEQUENCE/SET site x every position x E/I/A x fault (inherited identifier, inherited tag, universal tag, automatic tagging over inherited tags, twice, additions not copied, nested extension, inside additions); enumerations over 15 value sets around 2^31/2^32/2^63/2^64/2^127 x valid/duplicate at every pair x root/after the marker), round-robin over the catalogue up to the tier's budget; one asn1c process per module",
                                  "traces_validated_against_impl": len(cases)},
                       assumptions=["model of libasn1fix is hand-written; tied by differential runs only on the generated modules",
-                                   "single-module specifications of the algebra in notes/design/C11.md; no constraints, parameterization, IMPORTS, COMPONENTS OF, ANY, SET OF",
+                                   "single-module specifications of the algebra in notes/design/C11.md; no constraints, parameterization, IMPORTS, ANY, SET OF; COMPONENTS OF only of earlier definitions; extensible ENUMERATED only fully valued",
                                    "diagnostic classes are recognised by message text"])
 
 
